@@ -7,6 +7,7 @@ use serde_json::{json, Value};
 use std::panic;
 
 mod bdd;
+mod dnnf;
 mod ff;
 mod table;
 
@@ -18,6 +19,7 @@ pub fn run_case(c: &Value) -> CaseResult {
         k if k.starts_with("ff_") => ff::run(c),
         "table_seq" => table::run(c),
         "bdd_prog" => bdd::run(c),
+        "dnnf_cond" => dnnf::run(c),
         _ => Err(format!("unknown case kind {kind}")),
     });
     match r {
@@ -64,6 +66,7 @@ fn main() {
                 "ff" => ff::candidates(&function, &obligation, seed, hint.as_ref()),
                 "table" => table::candidates(seed),
                 "bdd" => bdd::candidates(&function, seed),
+                "dnnf" => dnnf::candidates(seed),
                 _ => vec![],
             };
             let mut tried = 0usize;
